@@ -11,6 +11,7 @@ import (
 	"os"
 	"time"
 
+	"github.com/IrineSistiana/mosproxy/internal/pool"
 	"github.com/IrineSistiana/mosproxy/internal/zzverif/vtrace"
 )
 
@@ -19,7 +20,9 @@ func main() {
 	mode := flag.String("mode", "c03", "")
 	rules := flag.String("rules", "", "")
 	thorough := flag.Bool("thorough", false, "")
+	nopoison := flag.Bool("nopoison", false, "released buffers go straight back to the pool (no poison, no quarantine)")
 	flag.Parse()
+	pool.VerifPassThrough.Store(*nopoison)
 	workdir = *dir
 	os.MkdirAll(workdir, 0o755)
 	seed = vtrace.Seed()
@@ -46,10 +49,9 @@ func main() {
 	case "c03":
 		modeC03(*thorough)
 	case "c10":
-		done := make(chan struct{})
-		go func() { defer close(done); modeC10Prefetch() }()
 		modeC10(*rules)
-		<-done
+	case "c10pf":
+		modeC10Prefetch()
 	case "c10boot":
 		modeC10Boot()
 	case "c07":
